@@ -7,14 +7,16 @@ package main
 import (
 	"context"
 	"errors"
+	"fmt"
 	"math/big"
+	"os"
 
 	btcconfig "github.com/ChainSafe/sygma-relayer/chains/btc/config"
 	btclistener "github.com/ChainSafe/sygma-relayer/chains/btc/listener"
 	evmevents "github.com/ChainSafe/sygma-relayer/chains/evm/calls/events"
-	"github.com/ChainSafe/sygma-relayer/keyshare"
 	"github.com/ChainSafe/sygma-relayer/chains/evm/listener/eventHandlers"
 	sublistener "github.com/ChainSafe/sygma-relayer/chains/substrate/listener"
+	"github.com/ChainSafe/sygma-relayer/keyshare"
 	"github.com/btcsuite/btcd/btcjson"
 	"github.com/btcsuite/btcd/chaincfg/chainhash"
 	"github.com/centrifuge/go-substrate-rpc-client/v4/registry"
@@ -46,6 +48,10 @@ type Case struct {
 	E     int64  `json:"e,omitempty"`
 	Items []Item `json:"items,omitempty"`
 	Blk   *int64 `json:"blk,omitempty"`
+	// scan: a point of the start-block grid (start.go)
+	Grid bool `json:"grid,omitempty"`
+	// apprun (apprun.go): Cfg as a domain of the real app.Run; the node's head at the start
+	Head int64 `json:"head,omitempty"`
 }
 
 type Obs struct {
@@ -53,6 +59,8 @@ type Obs struct {
 	// scan: script indices of the Panic events that killed the process / that the listener survived
 	Died     []int `json:"died,omitempty"`
 	Survived []int `json:"survived,omitempty"`
+	// scan: what GetStartBlock was given, when that is not app.go's customary (id, config.StartBlock, latest, fresh)
+	StartCall string `json:"start_call,omitempty"`
 	// propagate: the handler did not report the range as handled (it returned an error, or - Panicked -
 	// the panic of the node read went through it)
 	Err      bool   `json:"err,omitempty"`
@@ -63,9 +71,17 @@ type Obs struct {
 	Fired bool       `json:"fired,omitempty"`
 	Asked [][2]int64 `json:"asked,omitempty"`
 	Bad   int        `json:"bad,omitempty"`
+	// apprun: the child gave an observation for this domain (Asked); app.Run itself ended (panic / return)
+	AppSeen bool `json:"app_seen,omitempty"`
+	AppDied bool `json:"app_died,omitempty"`
 }
 
 var wiring map[string]scanstack.Wiring
+
+// chain kinds whose start-block wiring the translator did not recognise (it has reported so, the
+// check is broken already): their scan cases cannot be composed and are not generated; the apprun
+// cases - the real app.Run, whatever its wiring looks like - and the handler cases still run
+var badKinds map[string]error
 
 // ---- propagate: the repository's event handlers over a node whose reads fail -------------------------
 
@@ -114,7 +130,9 @@ func (c failingSub) GetBlock(types.Hash) (*types.SignedBlock, error) {
 	}
 	return &types.SignedBlock{Block: types.Block{Header: types.Header{Number: 100}}}, nil
 }
-func (c failingSub) GetBlockHash(uint64) (types.Hash, error) { return types.Hash{}, c.f.at("GetBlockHash") }
+func (c failingSub) GetBlockHash(uint64) (types.Hash, error) {
+	return types.Hash{}, c.f.at("GetBlockHash")
+}
 func (c failingSub) GetBlockEvents(types.Hash) ([]*parser.Event, error) {
 	return nil, c.f.at("GetBlockEvents")
 }
@@ -245,6 +263,10 @@ func propagate1(name string, f fault) bool {
 }
 
 func run(c Case) Obs {
+	if c.Type == "apprun" {
+		r, died, ok := appObserve(appSpecOf(c))
+		return Obs{Asked: r, AppSeen: ok, AppDied: died, StartCall: describeStartCall(c.Cfg.Kind)}
+	}
 	if c.Type == "reads" {
 		return driveReads(c)
 	}
@@ -260,8 +282,12 @@ func run(c Case) Obs {
 	if !ok {
 		panic("no wiring for kind " + c.Cfg.Kind)
 	}
-	r := scanstack.Run(c.Cfg, w, c.Evs, scanstack.Options{})
-	return Obs{Outs: r.Outs, Died: r.Died, Survived: r.Survived}
+	if badKinds[c.Cfg.Kind] != nil {
+		return Obs{} // (a corpus / replay case of such a kind: no observation = a broken correspondence)
+	}
+	// GetStartBlock is told what app.go tells it (start.go)
+	r := scanstack.Run(wired(c.Cfg), w, c.Evs, scanstack.Options{})
+	return Obs{Outs: r.Outs, Died: r.Died, Survived: r.Survived, StartCall: describeStartCall(c.Cfg.Kind)}
 }
 
 // ---- generation --------------------------------------------------------------------------------------
@@ -447,6 +473,9 @@ func gen(r *vgen.Rng, tier string) []Case {
 	}
 	out = append(out, genReads(r, tier)...)
 	out = append(out, sweep()...)
+	out = append(out, startGrid()...)
+	app := appGrid()
+	appPrefetch(app) // one child process runs the real app.Run for all of them while the cases below run
 	n := 420
 	if tier == "thorough" {
 		n = 6000
@@ -488,6 +517,17 @@ func gen(r *vgen.Rng, tier string) []Case {
 			rounds = r.Range(40, 70)
 		}
 		out = append(out, Case{Type: "scan", Cfg: cfg, Evs: genScript(r, cfg, rounds, r.Intn(5))})
+	}
+	out = append(out, app...)
+	if len(badKinds) > 0 {
+		kept := out[:0]
+		for _, c := range out {
+			if c.Type == "scan" && badKinds[c.Cfg.Kind] != nil {
+				continue
+			}
+			kept = append(kept, c)
+		}
+		out = kept
 	}
 	return out
 }
@@ -559,6 +599,9 @@ func CoqOut(o scanstack.Out) string {
 }
 
 func coq(c Case, o Obs) string {
+	if c.Type == "apprun" {
+		return coqApp(c, o)
+	}
 	if c.Type == "reads" {
 		return coqReads(c, o)
 	}
@@ -572,7 +615,15 @@ func coq(c Case, o Obs) string {
 }
 
 func main() {
-	wiring = scanstack.LoadWiring()
+	if dir := os.Getenv(appEnv); dir != "" {
+		appChild(dir)
+		return
+	}
+	wiring, badKinds = scanstack.LoadWiringLenient()
+	for k, err := range badKinds {
+		fmt.Fprintf(os.Stderr, "c05: the start-block wiring of app.go (%s) is not one this harness can compose: %v\n", k, err)
+	}
+	loadStartCalls()
 	vgen.Main(vgen.Spec[Case, Obs]{
 		Property:  "C05",
 		RunModule: "C05",
@@ -581,6 +632,9 @@ func main() {
 		Coq:       coq,
 		ShardSize: 60,
 		Kind: func(c Case) string {
+			if c.Type == "apprun" {
+				return "apprun-" + c.Cfg.Kind
+			}
 			if c.Type == "reads" {
 				if c.Point == "" {
 					return "reads-" + c.Handler
@@ -596,6 +650,9 @@ func main() {
 				}
 				return "propagate-" + c.Handler + "@" + c.Point
 			}
+			if c.Grid {
+				return "scan-" + c.Cfg.Kind + "-startgrid"
+			}
 			for _, e := range c.Evs {
 				if e.Panic {
 					return "scan-" + c.Cfg.Kind + "-panic"
@@ -604,6 +661,9 @@ func main() {
 			return "scan-" + c.Cfg.Kind
 		},
 		NonTrivial: func(c Case, o Obs) bool {
+			if c.Type == "apprun" {
+				return o.AppSeen
+			}
 			if c.Type == "reads" {
 				return o.Fired || c.E > c.S || len(c.Items) > 0
 			}
@@ -617,6 +677,6 @@ func main() {
 			}
 			return false
 		},
-		Rule: "environment scripts (RPC failures, heads, per-handler results, store results, 0..4 crash points, inapplicable events) for the real EVM/Substrate/BTC listener stacks wired per the extracted app.go record, intervals 1..7, confirmations 0..12, 1..3 handlers, configured starts aligned/unaligned/large, stored cursor absent/behind/ahead, latest/fresh flags; a failing handler-0 event fails one of the real deposit handler's node reads (BTC GetBlockHash / GetBlockVerboseTx, EVM eth_getLogs under the real events.Listener, Substrate FetchEvents) with an error class drawn from the catalogue; a sweep of short scans in which the deposit handler at each node read, a later Bitcoin handler, the Bitcoin head read or block-store write fails once with each error class; every failing place also failing by a Go panic instead of an error (generated scripts and a sweep: deposit handler inside each node read, later handlers, head read, store write; listener death or survival observed); plus every repository event handler (EVM deposit/retryV1/retryV2/keygen/frost-keygen/refresh over the real events.Listener, Substrate fungible/retry/system-update, BTC fungible) x every node read it depends on x every error class of the catalogue and, for the range-level reads, a panic (plain, wrapped, *btcjson.RPCError codes, io.EOF, context, ethereum.NotFound, JSON-RPC error objects, HTTP/transport errors, texts); plus one HandleEvents call of each of these handlers over a node that records the arguments of every read and serves ranges as the real clients do (reversed bounds: nothing, no error; unknown hashes: error): ranges of 1..7 blocks at small / aligned / large heights holding 0..4 events (deposits, logs, retry events with 0..2 deposits in the retried block, runtime-upgrade events, foreign events), without fault and with the node unable to serve block B for every B of the range; Substrate retry handler with 1..4 retry events, the retried block of EACH of them in turn unreadable at GetBlockHash / GetBlockEvents, a block named twice, events not final yet, head reads failing (judge: a failed read is reported, a call that reports success has asked for every block of its range); distinct = distinct input JSON; non-trivial = a scan in which at least one range was fully handled and StoreBlock was reached, or a failing read, or a range of several blocks / with events",
+		Rule: "environment scripts (RPC failures, heads, per-handler results, store results, 0..4 crash points, inapplicable events) for the real EVM/Substrate/BTC listener stacks wired per the extracted app.go record, intervals 1..7, confirmations 0..12, 1..3 handlers, configured starts aligned/unaligned/large, stored cursor absent/behind/ahead, latest/fresh flags, GetStartBlock given the start block and the two flags by the expressions extracted from app.go (directly, through local names or helper functions); the complete start-block grid per chain kind ((latest, fresh) x stored cursor absent/below/at/above the configured start block x configured start 0/aligned/unaligned x interval 1/3 x head near/far, two ranges, a crash, two more ranges); a failing handler-0 event fails one of the real deposit handler's node reads (BTC GetBlockHash / GetBlockVerboseTx, EVM eth_getLogs under the real events.Listener, Substrate FetchEvents) with an error class drawn from the catalogue; a sweep of short scans in which the deposit handler at each node read, a later Bitcoin handler, the Bitcoin head read or block-store write fails once with each error class; every failing place also failing by a Go panic instead of an error (generated scripts and a sweep: deposit handler inside each node read, later handlers, head read, store write; listener death or survival observed); plus every repository event handler (EVM deposit/retryV1/retryV2/keygen/frost-keygen/refresh over the real events.Listener, Substrate fungible/retry/system-update, BTC fungible) x every node read it depends on x every error class of the catalogue and, for the range-level reads, a panic (plain, wrapped, *btcjson.RPCError codes, io.EOF, context, ethereum.NotFound, JSON-RPC error objects, HTTP/transport errors, texts); plus one HandleEvents call of each of these handlers over a node that records the arguments of every read and serves ranges as the real clients do (reversed bounds: nothing, no error; unknown hashes: error): ranges of 1..7 blocks at small / aligned / large heights holding 0..4 events (deposits, logs, retry events with 0..2 deposits in the retried block, runtime-upgrade events, foreign events), without fault and with the node unable to serve block B for every B of the range; Substrate retry handler with 1..4 retry events, the retried block of EACH of them in turn unreadable at GetBlockHash / GetBlockEvents, a block named twice, events not final yet, head reads failing (judge: a failed read is reported, a call that reports success has asked for every block of its range); distinct = distinct input JSON; non-trivial = a scan in which at least one range was fully handled and StoreBlock was reached, or a failing read, or a range of several blocks / with events",
 	})
 }
